@@ -99,3 +99,8 @@ impl Decimal {
 }
 pub uninterp spec fn dec_max() -> real;
 pub broadcast axiom fn axiom_dec_max_pos() ensures #[trigger] dec_max() > 0real;
+impl Decimal {
+    // From<u64> for Decimal (exact)
+    #[verifier::external_body]
+    pub fn from(v: u64) -> (r: Decimal) ensures r@ == v as real { unimplemented!() }
+}
